@@ -91,6 +91,7 @@ type st = {
   mutable nt : int; kinds : (string, int) Hashtbl.t;
   mutable samples : string list; mutable mis_lines : string list;
   mutable or_lines : string list;
+  or_tags : (string, int * string) Hashtbl.t;
 }
 let streams : (string, st) Hashtbl.t = Hashtbl.create 16
 let get_st sid =
@@ -98,7 +99,7 @@ let get_st sid =
   | Some s -> s
   | None ->
     let s = { n = 0; mism = 0; orfail = 0; oreval = 0; nt = 0; kinds = Hashtbl.create 8;
-              samples = []; mis_lines = []; or_lines = [] } in
+              samples = []; mis_lines = []; or_lines = []; or_tags = Hashtbl.create 8 } in
     Hashtbl.add streams sid s; s
 
 let seen : (int * int, unit) Hashtbl.t = Hashtbl.create 100000
@@ -146,6 +147,9 @@ let () =
            | "-" -> ()
            | "1" -> s.oreval <- s.oreval + 1
            | _ -> s.oreval <- s.oreval + 1; s.orfail <- s.orfail + 1;
+                  (match Hashtbl.find_opt s.or_tags oracle with
+                   | Some (n, ex) -> Hashtbl.replace s.or_tags oracle (n + 1, ex)
+                   | None -> Hashtbl.replace s.or_tags oracle (1, line));
                   if List.length s.or_lines < 20 then s.or_lines <- line :: s.or_lines);
           let kind = match split_on ' ' impl_obs with k :: _ -> k | [] -> "" in
           Hashtbl.replace s.kinds kind (1 + (try Hashtbl.find s.kinds kind with Not_found -> 0));
@@ -170,8 +174,10 @@ let () =
       Printf.sprintf "\"%s\": %d" (json_escape k) v :: acc) s.kinds []) in
     let strs l = String.concat ", " (List.map (fun x -> "\"" ^ json_escape x ^ "\"") (List.rev l)) in
     Printf.fprintf oc
-      "\"%s\": {\"n\": %d, \"mismatches\": %d, \"oracle_evaluations\": %d, \"oracle_failures\": %d, \"distinct_nontrivial\": %d, \"kinds\": {%s}, \"samples\": [%s], \"mismatch_lines\": [%s], \"oracle_fail_lines\": [%s]}"
+      "\"%s\": {\"n\": %d, \"mismatches\": %d, \"oracle_evaluations\": %d, \"oracle_failures\": %d, \"distinct_nontrivial\": %d, \"kinds\": {%s}, \"samples\": [%s], \"mismatch_lines\": [%s], \"oracle_fail_lines\": [%s], \"oracle_fail_tags\": {%s}}"
       (json_escape sid) s.n s.mism s.oreval s.orfail s.nt kinds (strs s.samples) (strs s.mis_lines) (strs s.or_lines)
+      (String.concat ", " (Hashtbl.fold (fun tag (n, ex) acc ->
+         Printf.sprintf "\"%s\": {\"n\": %d, \"example\": \"%s\"}" (json_escape tag) n (json_escape ex) :: acc) s.or_tags []))
   ) streams;
   output_string oc "}}\n";
   close_out oc
